@@ -75,6 +75,13 @@ CLAIMED = {
             "mistake or a renamed key is caught.", TECH + "; independent specification-derived readers as oracle",
             NOTE + "; the independent readers (validated by a differential run over the 398 JSON + 44 XML corpus files: "
             "agreement except the J1-excluded 1/True attribute sets) are trusted"),
+    "C06": ("The C01 enumerations (history exploration + shape sweep over all record shapes, argument masks, id modes, "
+            "value kinds, namespace environments) under the quantifier's PROV-N clauses N1-N3 (each counted): the text "
+            "of get_provn()/serialize('provn') must parse under the W3C PROV-N grammar with an independent hand-written "
+            "tokenizer + recursive-descent parser (markers only in optional positions, id; only on relations, "
+            "declarations first, bundles last, ECHAR escapes, typed / language literals) and the parsed document must "
+            "equal the strict observation of the original.", TECH + "; independent PROV-N parser as oracle",
+            NOTE + "; the PROV-N parser (written from the grammar as recalled in DESIGN appendix A.1) is trusted"),
 }
 
 NA = {}
